@@ -110,3 +110,40 @@ def replay_file(prop, path):
         bad += len(recs)
     print(f"replayed: {bad} disagreements")
     return 1 if bad else 0
+
+
+# ------------------------------------------------------------------ C12
+def gen_cmp():
+    cfg = ("SPECIFICATION Spec\nINVARIANT Reflexive\nINVARIANT Symmetric\nINVARIANT EqImpliesClose\nINVARIANT Monotone\n"
+           "INVARIANT OneDifferenceIsUnequal\nINVARIANT Emit\nCHECK_DEADLOCK FALSE\n")
+    return _gen("Compare", "@@CMP ", cfg, "compare")
+
+
+def check_c12(tier):
+    from . import cmpx
+
+    cases, stats = gen_cmp()
+    res = cmpx.replay(cases, full=(tier == "thorough"))
+    v = common.Verdicts("C12")
+    v.extend(res["records"])
+    nviol, nknown = v.finish()
+    if len(cases) < 1000 or res["calls"] < 50000:
+        raise RuntimeError("vacuous run")
+    by = {}
+    for c in cases:
+        by[c["ndiff"]] = by.get(c["ndiff"], 0) + 1
+    cov = {"states": stats["distinct"], "transitions": stats["generated"], "traces_validated_against_impl": len(cases),
+           "samples": [cases[0], cases[len(cases) // 2]], "pairs_by_number_of_differing_coordinates": by,
+           "implementation_calls": res["calls"], "mixed_system_calls": res["mixed_calls"],
+           "evaluations": res["calls"], "distinct_nontrivial": len(cases),
+           "rule": ("states of spec/Compare.tla = pairs of stored records (identical / one / several / all coordinates changed) x tolerance grid, "
+                    "enumerated exhaustively with the invariants Reflexive, Symmetric, EqImpliesClose, Monotone, OneDifferenceIsUnequal; each pair "
+                    "is executed in the coordinate systems of its dimension (quick: 3, thorough: all) on object, NumPy, Awkward array and Awkward "
+                    "record operands through ==, !=, equal, not_equal, isclose, allclose, numpy.equal/not_equal/isclose/allclose, element by "
+                    "element; plus, for every pairing of different coordinate systems, != = not ==, symmetry, == => isclose and monotonicity"),
+           "exhaustive": tier == "thorough", "checker_cmd": "tlc2.TLC Compare.tla; harness/vverif/cmpx.py",
+           "trusted_base": ["TLC 1.8", "spec/Compare.tla", "harness/vverif/cmpx.py"]}
+    return {"level": "model_checking", "coverage": cov, "violations": nviol, "known": nknown,
+            "assumptions": ["stored coordinates are dyadic rationals so that float64 comparisons and tolerance sums are exact",
+                            "== and != on Awkward records are excluded here (they raise: recorded under C05)"],
+            "summary": f"{len(cases)} comparison states, {res['calls']} API calls"}
